@@ -25,7 +25,8 @@ PID = "C06"
 
 
 def systematic(tier):
-    return templates.c01_cases(tier)
+    m = templates.matrix_cases(tier)
+    return templates.c01_cases(tier) + (m if tier == "thorough" else m[::2])
 
 
 def strategy(tier):
